@@ -1,7 +1,10 @@
 package main
 
 import (
+	"fmt"
+
 	"bytes"
+	soy "github.com/robfig/soy"
 	"regexp"
 	"strings"
 	"sync"
@@ -434,6 +437,44 @@ func directC07(g *G, rep *Report) {
 		b := bg.bundle()
 		fs := b.sources()
 		reg, err := compileCheck(fs)
+		// one Bundle value compiled again (Compile, Compile, CompileToTofu): a verdict is a function of the bundle's
+		// sources, not of how often it has been compiled.  Valid bundles and one injected variant.
+		variants := [][]srcFile{fs}
+		if inj := injectors[i%len(injectors)]; err == nil {
+			if bad, ok := inj.f(bg.r, fs); ok {
+				variants = append(variants, bad)
+			}
+		}
+		for vi, v := range variants {
+			_, e0 := compileBundle(v) // a fresh Bundle, compiled once
+			var verdicts []string
+			guarded(20*time.Second, func() {
+				sb := soy.NewBundle()
+				for _, f := range v {
+					sb.AddTemplateString(f.name, f.content)
+				}
+				for k := 0; k < 3; k++ {
+					var e error
+					if k < 2 {
+						_, e = sb.Compile()
+					} else {
+						_, e = sb.CompileToTofu()
+					}
+					verdicts = append(verdicts, errText(e))
+				}
+			})
+			rep.Evaluations++
+			for k, got := range verdicts {
+				if (got == "OK") != (e0 == nil) || got != verdicts[0] {
+					rep.Violations = append(rep.Violations, Viol{Key: fmt.Sprintf("recompile:%d:variant%d", k, vi), What: "compiling the same Bundle value again changes the verdict",
+						Req: req("check", encSources(v), "(files)"), Note: fmt.Sprintf("compilation #%d of one Bundle", k+1), Impl: got, Want: verdicts[0] + " (fresh bundle: " + errText(e0) + ")"})
+					break
+				}
+			}
+			if len(verdicts) != 3 {
+				rep.Violations = append(rep.Violations, Viol{Key: "recompile:no-return", What: "compiling the same Bundle value three times did not return", Req: req("check", encSources(v), "(files)"), Impl: "PANIC/HANG", Want: "verdicts"})
+			}
+		}
 		if err != nil {
 			continue
 		}
@@ -474,6 +515,13 @@ func directC07(g *G, rep *Report) {
 	rep.Extra["renders_observed_for_unbound_lookups"] = renders
 	rep.Extra["unbound_lookups"] = unbound
 	rep.Extra["generator_stats"] = bg.stats
+}
+
+func errText(e error) string {
+	if e == nil {
+		return "OK"
+	}
+	return "ERR " + e.Error()
 }
 
 func isOptionalParamSomewhere(b *gBundle, name string) bool {
